@@ -508,6 +508,22 @@ def generate(ctx):
                          "index": [("slice", [None, None, rng.choice([None, -1])]), (kind, ind)], "vshape": [other, 1]}
                 c["dask_value"] = rng.random() < 0.4
                 yield "api", c
+    # scale: more than 10 blocks along an axis, more than 128 blocks in total (lru_cache of the helpers), long index arrays
+    for _ in range(ctx.n(6, 60)):
+        nb = rng.randint(11, 15)
+        lengths = [rng.choice([1, 2, 3]) for _ in range(nb)]
+        n = sum(lengths)
+        v = [None] + list(range(-n - 2, n + 3))
+        sl = [rng.choice(v), rng.choice(v), rng.choice([None, 1, 2, 3, 4, -1, -2, -3, -5])]
+        yield "api", {"shape": [n], "chunks": [lengths], "index": [("slice", sl)],
+                      "vshape": [len(range(*slice(*sl).indices(n)))], "dask_value": rng.random() < 0.5}
+        yield "plan", {"shape": [n], "chunks": [lengths], "index": [("slice", sl)], "vshape": [len(range(*slice(*sl).indices(n)))]}
+    yield "api", {"shape": [12, 12], "chunks": [[1] * 12, [1] * 12], "index": [("slice", [None, None, -3]), ("slice", [1, None, 5])],
+                  "vshape": [4, 3], "dask_value": False}
+    for n in (300, 400):
+        ind = [rng.randrange(-n, n) for _ in range(n)]
+        yield "api", {"shape": [n], "chunks": [[n // 2, n - n // 2]], "index": [(rng.choice(["list", "dalist"]), ind)], "vshape": [n],
+                      "dask_value": False}
     for _ in range(ctx.n(40, 600)):
         nd = rng.randint(1, 3)
         shape = [rng.randint(1, 4) for _ in range(nd)]
